@@ -34,8 +34,10 @@ def default_jobs(instances):
         return 1
     ncpu = os.cpu_count() or 4
     avail = K._available_gb()
-    mem = max(i.mem_gb for i in instances)
-    return max(1, min(ncpu - 2, int((avail - 6) // max(1.0, mem * 0.8)), len(instances)))
+    # declared caps are ceilings for the watchdog; typical use is about half.  The start of each solver is gated on
+    # MemAvailable anyway (kani._acquire_mem), so the thread count only has to be large enough not to waste cores.
+    mem = sum(i.mem_gb for i in instances) / float(len(instances))
+    return max(1, min(ncpu - 2, int((avail - 6) // max(1.0, mem * 0.5)), len(instances)))
 
 
 def run_property(mod, pid, tier, seed, only=None, jobs=0, keep=False, write_evidence=True):
@@ -57,6 +59,7 @@ def run_property(mod, pid, tier, seed, only=None, jobs=0, keep=False, write_evid
     violations = []
     inconclusive = []
     undecided = []
+    skipped = []
     kf_lines = []
     try:
         # ------------------------------------------------------------- Engine B (MIR VCs)
@@ -87,8 +90,19 @@ def run_property(mod, pid, tier, seed, only=None, jobs=0, keep=False, write_evid
                 def progress(r):
                     log("  %-52s %-12s %6.0fs %6d MB %s" % (r.inst.name, r.verdict, r.wall_s, r.max_rss_mb,
                                                           (r.reason or "")[:140]))
+                if tier == "quick":
+                    # the quick command is meant for every change: stay inside ~13 minutes whatever the machine is doing
+                    budget = float(os.environ.get("VERIF_QUICK_BUDGET_S", "780"))
+                    left = max(120.0, budget - (time.time() - t0))
+                    K.CTL.update(launch_deadline=time.time() + left * 0.45, hard_deadline=time.time() + left * 0.8, stop=False)
+                else:
+                    K.CTL.update(launch_deadline=None, hard_deadline=None, stop=False)
                 results = K.run_all(instances, ovdir, gen, work, os.path.join(work, "logs"), jobs=j, progress=progress)
+                K.CTL.update(launch_deadline=None, hard_deadline=None, stop=False)
                 for r in results:
+                    if r.verdict == K.SKIPPED:
+                        skipped.append("%s: %s" % (r.inst.name, r.reason))
+                        continue
                     if r.inst.expect_fail:
                         if r.verdict == K.FAIL:
                             r.verdict = K.OK
@@ -140,6 +154,8 @@ def run_property(mod, pid, tier, seed, only=None, jobs=0, keep=False, write_evid
             log("  what: %s" % rep.get("what", ""))
         for m in undecided:
             log("UNDECIDED (resource limit, thorough tier): %s" % m)
+        for m in skipped:
+            log("SKIPPED (quick-tier time budget): %s" % m)
         if confirmed:
             rc = 1
         elif inconclusive:
@@ -147,7 +163,7 @@ def run_property(mod, pid, tier, seed, only=None, jobs=0, keep=False, write_evid
             for m in inconclusive:
                 log("INCONCLUSIVE: %s" % m)
         if write_evidence:
-            write_ev(pid, tier, seed, spec, results, vc_results, confirmed, inconclusive, kf_lines, time.time() - t0, undecided)
+            write_ev(pid, tier, seed, spec, results, vc_results, confirmed, inconclusive, kf_lines, time.time() - t0, undecided, skipped)
     finally:
         if not keep:
             shutil.rmtree(work, ignore_errors=True)
@@ -196,7 +212,7 @@ def save_log(pid, r):
         pass
 
 
-def write_ev(pid, tier, seed, spec, results, vc_results, confirmed, inconclusive, kf_lines, wall, undecided=()):
+def write_ev(pid, tier, seed, spec, results, vc_results, confirmed, inconclusive, kf_lines, wall, undecided=(), skipped=()):
     os.makedirs(EVID, exist_ok=True)
     inst_json = [r.to_json() for r in results]
     n_ok = sum(1 for r in results if r.verdict == K.OK)
@@ -248,6 +264,7 @@ def write_ev(pid, tier, seed, spec, results, vc_results, confirmed, inconclusive
         "confirmed_violations": [c.get("path") for c in confirmed],
         "inconclusive": inconclusive,
         "undecided_resource_limit": list(undecided),
+        "skipped_quick_time_budget": list(skipped),
         "exhaustive": False,
     }
     ev = {
